@@ -233,8 +233,8 @@ def tests():
         # only templates whose differentiable arguments may be complex
         if not complex_capable(t):
             continue
-        out.append(Test("crev:" + name, partial(_body, t, "rev"), quick=60 * t.weight, thorough=800 * t.weight, shard_size=200))
-        out.append(Test("cfwd:" + name, partial(_body, t, "fwd"), quick=40 * t.weight, thorough=500 * t.weight, shard_size=200))
+        out.append(Test("crev:" + name, partial(_body, t, "rev"), quick=100 * t.weight, thorough=800 * t.weight, shard_size=200))
+        out.append(Test("cfwd:" + name, partial(_body, t, "fwd"), quick=60 * t.weight, thorough=500 * t.weight, shard_size=200))
     out.append(Test("holomorphic", holo_body, quick=600, thorough=8000, shard_size=150))
     out.append(Test("real_loss", realloss_body, quick=300, thorough=3000, shard_size=150))
     out.append(Test("roundtrip", roundtrip_body, quick=300, thorough=3000, shard_size=150))
